@@ -1,16 +1,36 @@
-// h_C04.cpp — harness for C04: UKFPrediction / UKFCorrection (additive and generic
-// constructors) against KFPrediction / KFCorrection of the implementation itself,
-// on linear-Gaussian models.
-// kind predict: ints n q generic skip_pred skip_state; mats params (alpha beta kappa), F (n x n),
-//               B (n x q), A (additive: F; generic: [F B]), Q (additive: n x n; generic: Qw q x q),
-//               means (n x comps), covs (n x n*comps), weights (comps x 1); optional exo_c (n x 1, additive
-//               only: constant exogenous input attached to both state models), out_shape (extra components /
-//               rows of the output object handed to UKFPrediction).
-// kind correct: ints n q m generic skip have_y fail online; mats params, H (m x n), D (m x q),
-//               A (additive: H; generic: [H D]), R (additive: m x m; generic: Rv q x q), y (m x 1),
-//               means, covs, weights, old_means, old_covs, old_weights (content of the output object);
-//               optional int mnoise (noise components declared by getMeasurementDescription);
-//               optional int warm + mat y0: the same object first performs a successful correction with y0.
+// h_C04.cpp — harness for C04: ONE UKFPrediction resp. ONE UKFCorrection object (additive and generic
+// constructors) driven through a SEQUENCE of calls over live, time-varying linear-Gaussian models, each call
+// compared with KFPrediction / KFCorrection of the implementation itself (a fresh Kalman object per call).
+//
+// Object level: ints n (state rows), circ (the last circ of them Euler-circular), q (noise inputs, generic), generic,
+//   nsteps, intrude, online (generic correction: update_weights_online); mat params (alpha beta kappa);
+//   word hows, one token per call, saying how the live model reached the operands of that call:
+//     first        first use of the fresh object
+//     same         nothing changed in the model since the previous call
+//     set          the harness changed the model's matrices through setters
+//     time         ... through StateModel::setSamplingTime(index) of the time-varying model (prediction only)
+//     movector     a new object was move-constructed from the (used) object; model unchanged
+//     movector+set move-constructed, then the matrices changed
+//     moveassign   the (used) object was move-assigned from another, used, object holding the model of this call
+//                  (prediction only: UKFCorrection has no move assignment)
+// Per call t (suffix _s<t>) the operands are what the live model holds at that call:
+//   predict: F (n x n), B (n x q), A (additive: F; generic: [F B]), Q (additive: n x n; generic: Qw q x q), optional
+//            exo_c (n x 1, additive only: constant exogenous input; present at every call or at none), means (n x comps),
+//            covs (n x n*comps), weights (comps x 1); ints skip_pred skip_state out_shape (extra components / rows of
+//            the output object handed to predict).
+//   correct: ints n q (may differ from the object's only when generic && online) m skip have_y fail (no predicted
+//            measurement) fail_innov (no innovation) mnoise (noise
+//            components declared by getMeasurementDescription); H (m x n), D (m x q), A (additive: H; generic: [H D]),
+//            R (additive: m x m; generic: Rv q x q), y (m x 1), means, covs, weights, old_means, old_covs, old_weights
+//            (content of the output object); int alias: correct(g, g), the output object is the input object.
+// Object lifetime (meta lifetime = fresh | moved | moved_after_use | assigned | assigned_after_use): the property is about every
+//   UKFPrediction / UKFCorrection object however it was obtained.  moved: the subject is move-constructed from a fresh
+//   object before the first call; moved_after_use: from an object that has already run a complete step (operands of call
+//   0); assigned / assigned_after_use (UKFPrediction only): the subject is an object built over another model (and, after
+//   use, used with it; other unscented parameters; int target_generic: built by the same or the other constructor) that is
+//   then move-assigned from the fresh / used object holding the case's model.
+// intrude = 1: inside every callback of the subject's models (state, exogenous, measurement) an independent twin
+//   object (same constructor, its own model with other data of the same shapes) runs a complete step.
 #define VF_MAIN
 #include "common.hpp"
 #include <BayesFilters/ExogenousModel.h>
@@ -25,185 +45,396 @@
 using namespace bfl;
 using namespace Eigen;
 
-// constant exogenous input u(X) = c 1^T
-struct ConstExo : public ExogenousModel {
-    MatrixXd c_;
-    explicit ConstExo(const MatrixXd& c) : c_(c) {}
-    void propagate(const Ref<const MatrixXd>& cur, Ref<MatrixXd> prop) override { prop = c_.replicate(1, cur.cols()); }
-    bool setProperty(const std::string&) override { return false; }
-    VectorDescription getStateDescription() const override { return VectorDescription(c_.rows()); }
+struct Hooked {
+    bool intrudes_ = false;
+    void hook() const { if (intrudes_) vf::intrude(); }
 };
 
-// x' = F x + w, additive
-struct LTI : public LTIStateModel {
-    long n_;
-    LTI(const MatrixXd& F, const MatrixXd& Q) : LTIStateModel(F, Q), n_(F.rows()) {}
-    VectorDescription getStateDescription() override { return VectorDescription(n_); }
+// constant exogenous input u(X) = c 1^T; c is changed by the harness between calls
+struct VarExo : public ExogenousModel, public Hooked {
+    MatrixXd c_; long lin_, circ_;
+    VarExo(const MatrixXd& c, long lin, long circ) : c_(c), lin_(lin), circ_(circ) {}
+    void propagate(const Ref<const MatrixXd>& cur, Ref<MatrixXd> prop) override { hook(); prop = c_.replicate(1, cur.cols()); }
+    bool setProperty(const std::string&) override { return false; }
+    VectorDescription getStateDescription() const override { return VectorDescription(lin_, circ_); }
+};
+
+// x' = F x (+ c) + w, noise additive; F, Q set directly or selected by setSamplingTime(index)
+struct TVAdditive : public LinearStateModel, public Hooked {
+    MatrixXd F_, Q_; std::vector<MatrixXd> Fs_, Qs_; long lin_, circ_;
+    TVAdditive(const MatrixXd& F, const MatrixXd& Q, long lin, long circ) : F_(F), Q_(Q), lin_(lin), circ_(circ) {}
+    void propagate(const Ref<const MatrixXd>& cur, Ref<MatrixXd> prop) override { hook(); LinearStateModel::propagate(cur, prop); }
+    MatrixXd getStateTransitionMatrix() override { hook(); return F_; }
+    MatrixXd getNoiseCovarianceMatrix() override { hook(); return Q_; }
+    MatrixXd getJacobian() override { return F_; }
+    bool setProperty(const std::string&) override { return false; }
+    VectorDescription getStateDescription() override { hook(); return VectorDescription(lin_, circ_); }
+    bool setSamplingTime(const double& t) override { const std::size_t i = static_cast<std::size_t>(t); F_ = Fs_.at(i); Q_ = Qs_.at(i); return true; }
+    void set(const MatrixXd& F, const MatrixXd& Q) { F_ = F; Q_ = Q; }
 };
 
 // x' = [F B] [x; w], noise enters through the model
-struct NoiseInputStateModel : public StateModel {
-    MatrixXd A_, Qw_; long n_, q_;
-    NoiseInputStateModel(const MatrixXd& A, const MatrixXd& Qw, long n, long q) : A_(A), Qw_(Qw), n_(n), q_(q) {}
-    void propagate(const Ref<const MatrixXd>& cur, Ref<MatrixXd> prop) override { prop = A_.leftCols(n_) * cur.topRows(n_); }
-    void motion(const Ref<const MatrixXd>& cur, Ref<MatrixXd> mot) override { mot = A_ * cur; }
+struct TVNoiseInput : public StateModel, public Hooked {
+    MatrixXd A_, Qw_; std::vector<MatrixXd> As_, Qs_; long lin_, circ_, q_;
+    TVNoiseInput(const MatrixXd& A, const MatrixXd& Qw, long lin, long circ, long q) : A_(A), Qw_(Qw), lin_(lin), circ_(circ), q_(q) {}
+    void propagate(const Ref<const MatrixXd>& cur, Ref<MatrixXd> prop) override { hook(); prop = A_.leftCols(lin_ + circ_) * cur.topRows(lin_ + circ_); }
+    void motion(const Ref<const MatrixXd>& cur, Ref<MatrixXd> mot) override { hook(); mot = A_ * cur; }
     bool setProperty(const std::string&) override { return false; }
-    MatrixXd getNoiseCovarianceMatrix() override { return Qw_; }
-    VectorDescription getInputDescription() override { return VectorDescription(n_, 0, q_); }
-    VectorDescription getStateDescription() override { return VectorDescription(n_); }
+    MatrixXd getNoiseCovarianceMatrix() override { hook(); return Qw_; }
+    VectorDescription getInputDescription() override { hook(); return VectorDescription(lin_, circ_, q_); }
+    VectorDescription getStateDescription() override { hook(); return VectorDescription(lin_, circ_); }
+    bool setSamplingTime(const double& t) override { const std::size_t i = static_cast<std::size_t>(t); A_ = As_.at(i); Qw_ = Qs_.at(i); return true; }
+    void set(const MatrixXd& A, const MatrixXd& Qw) { A_ = A; Qw_ = Qw; }
 };
 
-// y = H x + v, additive; serves the case's measurement
-struct ServedLTI : public LTIMeasurementModel {
-    MatrixXd y_; bool have_y_, fail_; long n_; long mnoise_ = 0;
-    ServedLTI(const MatrixXd& H, const MatrixXd& R, const MatrixXd& y, bool have_y, bool fail)
-        : LTIMeasurementModel(H, R), y_(y), have_y_(have_y), fail_(fail), n_(H.cols()) {}
-    bool freeze(const Data&) override { return true; }
-    std::pair<bool, Data> measure(const Data&) const override { return std::make_pair(have_y_, Data(y_)); }
+// plain time-invariant model for the Kalman reference
+struct LTI : public LTIStateModel {
+    long lin_, circ_;
+    LTI(const MatrixXd& F, const MatrixXd& Q, long lin, long circ) : LTIStateModel(F, Q), lin_(lin), circ_(circ) {}
+    VectorDescription getStateDescription() override { return VectorDescription(lin_, circ_); }
+};
+
+// y = H x + v, additive; serves the call's measurement
+struct ServedLTI : public LTIMeasurementModel, public Hooked {
+    MatrixXd y_; bool have_y_ = true, fail_ = false, innov_fail_ = false; long lin_, circ_; long mnoise_ = 0;
+    ServedLTI(const MatrixXd& H, const MatrixXd& R, const MatrixXd& y, long lin, long circ)
+        : LTIMeasurementModel(H, R), y_(y), lin_(lin), circ_(circ) {}
+    void set(const MatrixXd& H, const MatrixXd& R) { H_ = H; R_ = R; }
+    bool freeze(const Data&) override { hook(); return true; }
+    std::pair<bool, Data> measure(const Data&) const override { hook(); return std::make_pair(have_y_, Data(y_)); }
     std::pair<bool, Data> predictedMeasure(const Ref<const MatrixXd>& cur) const override {
+        hook();
         if (fail_) return std::make_pair(false, Data());
         return LTIMeasurementModel::predictedMeasure(cur);
     }
-    VectorDescription getInputDescription() const override { return VectorDescription(n_, 0, H_.rows()); }
-    VectorDescription getMeasurementDescription() const override { return VectorDescription(H_.rows(), 0, mnoise_); }
+    std::pair<bool, Data> innovation(const Data& p, const Data& m) const override {
+        hook();
+        if (innov_fail_) return std::make_pair(false, Data());
+        return LTIMeasurementModel::innovation(p, m);
+    }
+    std::pair<bool, MatrixXd> getNoiseCovarianceMatrix() const override { hook(); return LTIMeasurementModel::getNoiseCovarianceMatrix(); }
+    MatrixXd getMeasurementMatrix() const override { hook(); return LTIMeasurementModel::getMeasurementMatrix(); }
+    VectorDescription getInputDescription() const override { hook(); return VectorDescription(lin_, circ_, H_.rows()); }
+    VectorDescription getMeasurementDescription() const override { hook(); return VectorDescription(H_.rows(), 0, mnoise_); }
 };
 
 // y = [H D] [x; v], noise enters through the model
-struct NoiseInputMeasModel : public MeasurementModel {
-    MatrixXd A_, Rv_, y_; bool have_y_, fail_; long n_, q_; long mnoise_ = 0;
-    NoiseInputMeasModel(const MatrixXd& A, const MatrixXd& Rv, const MatrixXd& y, bool have_y, bool fail, long n, long q)
-        : A_(A), Rv_(Rv), y_(y), have_y_(have_y), fail_(fail), n_(n), q_(q) {}
-    bool freeze(const Data&) override { return true; }
-    std::pair<bool, Data> measure(const Data&) const override { return std::make_pair(have_y_, Data(y_)); }
+struct NoiseInputMeasModel : public MeasurementModel, public Hooked {
+    MatrixXd A_, Rv_, y_; bool have_y_ = true, fail_ = false, innov_fail_ = false; long lin_, circ_, q_; long mnoise_ = 0;
+    NoiseInputMeasModel(const MatrixXd& A, const MatrixXd& Rv, const MatrixXd& y, long lin, long circ, long q)
+        : A_(A), Rv_(Rv), y_(y), lin_(lin), circ_(circ), q_(q) {}
+    bool freeze(const Data&) override { hook(); return true; }
+    std::pair<bool, Data> measure(const Data&) const override { hook(); return std::make_pair(have_y_, Data(y_)); }
     std::pair<bool, Data> predictedMeasure(const Ref<const MatrixXd>& cur) const override {
+        hook();
         if (fail_) return std::make_pair(false, Data());
         MatrixXd p = A_ * cur;
         return std::make_pair(true, Data(std::move(p)));
     }
     std::pair<bool, Data> innovation(const Data& pred, const Data& meas) const override {
+        hook();
+        if (innov_fail_) return std::make_pair(false, Data());
         MatrixXd innovation = -(any::any_cast<MatrixXd>(pred).colwise() - any::any_cast<MatrixXd>(meas).col(0));
         return std::make_pair(true, Data(std::move(innovation)));
     }
-    std::pair<bool, MatrixXd> getNoiseCovarianceMatrix() const override { return std::make_pair(true, Rv_); }
-    VectorDescription getInputDescription() const override { return VectorDescription(n_, 0, q_); }
-    VectorDescription getMeasurementDescription() const override { return VectorDescription(A_.rows(), 0, mnoise_); }
+    std::pair<bool, MatrixXd> getNoiseCovarianceMatrix() const override { hook(); return std::make_pair(true, Rv_); }
+    VectorDescription getInputDescription() const override { hook(); return VectorDescription(lin_, circ_, q_); }
+    VectorDescription getMeasurementDescription() const override { hook(); return VectorDescription(A_.rows(), 0, mnoise_); }
 };
 
-static void dump(const std::string& pre, const GaussianMixture& g) {
+static std::string sfx(const std::string& n, long t) { return n + "_s" + std::to_string(t); }
+
+static void dump(const std::string& pre, long t, const GaussianMixture& g) {
     for (long i = 0; i < (long)g.components; i++) {
-        vf::out_mat(pre + "mean" + std::to_string(i), g.mean(i));
-        vf::out_mat(pre + "cov" + std::to_string(i), g.covariance(i));
+        vf::out_mat(sfx(pre + "mean" + std::to_string(i), t), g.mean(i));
+        vf::out_mat(sfx(pre + "cov" + std::to_string(i), t), g.covariance(i));
     }
 }
 static bool same(const GaussianMixture& a, const GaussianMixture& b) {
-    return vf::bit_equal(a.mean(), b.mean()) && vf::bit_equal(a.covariance(), b.covariance()) && vf::bit_equal(a.weight(), b.weight());
+    return a.components == b.components && a.dim == b.dim && vf::bit_equal(a.mean(), b.mean()) && vf::bit_equal(a.covariance(), b.covariance()) && vf::bit_equal(a.weight(), b.weight());
+}
+// other data of the same shape (twin objects of the re-entrancy probe)
+static MatrixXd other(const MatrixXd& a) { return (-1.75 * a.array() + 0.375).matrix(); }
+
+// ---------------------------------------------------------------------------------------------------------------
+struct PredSubject {
+    std::unique_ptr<UKFPrediction> ukf;
+    TVAdditive* add = nullptr; TVNoiseInput* gen = nullptr; VarExo* exo = nullptr;
+};
+
+static PredSubject make_pred(const vf::Case& c, long t, bool generic, long lin, long circ, long q, const MatrixXd& params, bool with_tables, long nsteps, bool hooks) {
+    PredSubject s;
+    vf::Entry e("UKFPrediction::UKFPrediction");
+    if (generic) {
+        s.gen = new TVNoiseInput(c.mat(sfx("A", t)), c.mat(sfx("Q", t)), lin, circ, q);
+        s.gen->intrudes_ = hooks;
+        if (with_tables) for (long j = 0; j < nsteps; j++) { s.gen->As_.push_back(c.mat(sfx("A", j))); s.gen->Qs_.push_back(c.mat(sfx("Q", j))); }
+        s.ukf.reset(new UKFPrediction(std::unique_ptr<StateModel>(s.gen), params(0, 0), params(0, 1), params(0, 2)));
+    } else {
+        s.add = new TVAdditive(c.mat(sfx("F", t)), c.mat(sfx("Q", t)), lin, circ);
+        s.add->intrudes_ = hooks;
+        if (with_tables) for (long j = 0; j < nsteps; j++) { s.add->Fs_.push_back(c.mat(sfx("F", j))); s.add->Qs_.push_back(c.mat(sfx("Q", j))); }
+        std::unique_ptr<AdditiveStateModel> sm(s.add);
+        if (c.has_mat(sfx("exo_c", t))) {
+            s.exo = new VarExo(c.mat(sfx("exo_c", t)), lin, circ);
+            s.exo->intrudes_ = hooks;
+            sm->add_exogenous_model(std::unique_ptr<ExogenousModel>(s.exo));
+        }
+        s.ukf.reset(new UKFPrediction(std::move(sm), params(0, 0), params(0, 1), params(0, 2)));
+    }
+    return s;
+}
+
+static void run_predict(const vf::Case& c) {
+    const MatrixXd& params = c.mat("params");
+    const long n = c.integer("n"), q = c.integer("q"), circ = c.has_int("circ") ? c.integer("circ") : 0, lin = n - circ;
+    const bool generic = c.integer("generic") != 0;
+    const long nsteps = c.integer("nsteps");
+    const bool intrude = c.has_int("intrude") && c.integer("intrude") != 0;
+    const std::vector<std::string>& hows = c.word("hows");
+    PredSubject s = make_pred(c, 0, generic, lin, circ, q, params, true, nsteps, intrude);
+    // the twin of the re-entrancy probe: same constructor, own model, other data of the same shapes
+    PredSubject twin;
+    if (intrude) twin = make_pred(c, 0, generic, lin, circ, q, params, false, nsteps, false);
+    const std::string lifetime = c.m("lifetime", "fresh");
+    long relocations = 0;
+    auto use_once = [&](UKFPrediction& u, double shift) {
+        const MatrixXd& m0 = c.mat("means_s0");
+        GaussianMixture a(m0.cols(), lin, circ), b(m0.cols(), lin, circ);
+        a.mean() = (m0.array() + shift).matrix(); a.covariance() = c.mat("covs_s0"); a.weight() = c.mat("weights_s0");
+        vf::Entry e("UKFPrediction::predict (before the move)");
+        u.predict(a, b);
+    };
+    if (lifetime == "moved_after_use" || lifetime == "assigned_after_use") use_once(*s.ukf, 0.0);
+    if (lifetime == "moved" || lifetime == "moved_after_use") {
+        vf::Entry e("UKFPrediction::UKFPrediction(UKFPrediction&&)");
+        std::unique_ptr<UKFPrediction> k2(new UKFPrediction(std::move(*s.ukf)));
+        s.ukf = std::move(k2); relocations++;
+    } else if (lifetime == "assigned" || lifetime == "assigned_after_use") {
+        // the target: an object of its own - other unscented parameters, its own model holding other data, built (int
+        // target_generic) by the same or by the other constructor
+        const bool tgen = c.has_int("target_generic") ? c.integer("target_generic") != 0 : generic;
+        const double a2 = 0.7 * params(0, 0) + 0.2, b2 = params(0, 1) + 0.5, k2 = params(0, 2) + 0.25;
+        PredSubject target;
+        {
+            vf::Entry e("UKFPrediction::UKFPrediction");
+            const MatrixXd F2 = other(c.mat("F_s0"));
+            if (tgen) {
+                MatrixXd A2(n, n + 1); A2 << F2, MatrixXd::Ones(n, 1);
+                target.gen = new TVNoiseInput(A2, MatrixXd::Identity(1, 1) * 0.5, lin, circ, 1);
+                target.ukf.reset(new UKFPrediction(std::unique_ptr<StateModel>(target.gen), a2, b2, k2));
+            } else {
+                target.add = new TVAdditive(F2, MatrixXd::Identity(n, n) * 0.5, lin, circ);
+                target.ukf.reset(new UKFPrediction(std::unique_ptr<AdditiveStateModel>(target.add), a2, b2, k2));
+            }
+        }
+        if (lifetime == "assigned_after_use") use_once(*target.ukf, 1.0);
+        { vf::Entry e("UKFPrediction::operator=(UKFPrediction&&)"); *target.ukf = std::move(*s.ukf); }
+        s.ukf = std::move(target.ukf); relocations++;      // s.add / s.gen / s.exo still point to the model, now owned by the new subject
+    }
+    vf::out_begin(c.id);
+    vf::out_int("relocations", relocations);
+    for (long t = 0; t < nsteps; t++) {
+        const std::string h = t < (long)hows.size() ? hows[t] : "first";
+        const MatrixXd& F = c.mat(sfx("F", t)); const MatrixXd& Q = c.mat(sfx("Q", t)); const MatrixXd& A = c.mat(sfx("A", t));
+        const bool have_exo = c.has_mat(sfx("exo_c", t));
+        if (h == "movector" || h == "movector+set") {
+            vf::Entry e("UKFPrediction::UKFPrediction(UKFPrediction&&)");
+            std::unique_ptr<UKFPrediction> k2(new UKFPrediction(std::move(*s.ukf)));
+            s.ukf = std::move(k2);
+        }
+        if (h == "set" || h == "movector+set") {
+            if (s.gen) s.gen->set(A, Q); else s.add->set(F, Q);
+            if (s.exo && have_exo) s.exo->c_ = c.mat(sfx("exo_c", t));
+        } else if (h == "time") {
+            { vf::Entry e("StateModel::setSamplingTime"); s.ukf->getStateModel().setSamplingTime(static_cast<double>(t)); }
+            if (s.exo && have_exo) s.exo->c_ = c.mat(sfx("exo_c", t));
+        } else if (h == "moveassign") {
+            // a donor that has already predicted once with ITS model (the model of this call), then moved into the subject
+            PredSubject d = make_pred(c, t, generic, lin, circ, q, params, true, nsteps, intrude);
+            GaussianMixture a(2, lin, circ), b(2, lin, circ);
+            a.mean().setConstant(0.25); for (int i = 0; i < 2; i++) a.covariance(i) = 0.01 * MatrixXd::Identity(n, n);
+            vf::clear_intruder();
+            d.ukf->predict(a, b);
+            { vf::Entry e("UKFPrediction::operator=(UKFPrediction&&)"); *s.ukf = std::move(*d.ukf); }
+            s.add = d.add; s.gen = d.gen; s.exo = d.exo;
+        }
+        const MatrixXd& means = c.mat(sfx("means", t)); const MatrixXd& covs = c.mat(sfx("covs", t));
+        const long comps = means.cols();
+        GaussianMixture in(comps, lin, circ);
+        in.mean() = means; in.covariance() = covs; in.weight() = c.mat(sfx("weights", t));
+        GaussianMixture in_copy(in);
+        if (intrude) {
+            const MatrixXd A2 = other(generic ? A : F), Q2 = 3.0 * Q, m2 = (0.5 * means.array() + 1.0).matrix(), P2 = 2.0 * covs;
+            MatrixXd c2; if (have_exo) c2 = other(c.mat(sfx("exo_c", t)));
+            PredSubject* tw = &twin;
+            vf::set_intruder([=]() {
+                if (tw->gen) tw->gen->set(A2, Q2); else tw->add->set(A2, Q2);
+                if (tw->exo && c2.size()) tw->exo->c_ = c2;
+                GaussianMixture p2(comps, lin, circ), o2(comps, lin, circ);
+                p2.mean() = m2; p2.covariance() = P2;
+                tw->ukf->predict(p2, o2);
+            });
+        }
+        // skip flags of this call (cleared first: skip("prediction", false) clears all three)
+        s.ukf->skip("prediction", false);
+        if (c.integer(sfx("skip_pred", t))) s.ukf->skip("prediction", true);
+        else if (c.integer(sfx("skip_state", t))) s.ukf->skip("state", true);
+        // the output object may have another shape: the unscented prediction assigns the whole mixture
+        const long dshape = c.has_int(sfx("out_shape", t)) ? c.integer(sfx("out_shape", t)) : 0;
+        GaussianMixture pred(comps + dshape, n + dshape);
+        pred.mean().setConstant(7.25); pred.covariance().setConstant(-3.5); pred.weight().setConstant(0.125);
+        { vf::Entry e("UKFPrediction::predict"); s.ukf->predict(in, pred); }
+        if (intrude) vf::out_int(sfx("intruder_calls", t), vf::intruder_state().calls);
+        vf::clear_intruder();
+        vf::out_int(sfx("components", t), pred.components);
+        vf::out_int(sfx("dim", t), pred.dim);
+        vf::out_int(sfx("dim_circular", t), pred.dim_circular);
+        dump("", t, pred);
+        vf::out_mat(sfx("weights", t), pred.weight().transpose());
+        vf::out_int(sfx("input_unchanged", t), same(in, in_copy) ? 1 : 0);
+        // the implementation's own Kalman prediction on the same inputs (a fresh object per call)
+        MatrixXd Qeff = Q;
+        if (generic) { const MatrixXd& B = c.mat(sfx("B", t)); Qeff = B * Q * B.transpose(); }
+        std::unique_ptr<LinearStateModel> ksm(new LTI(F, Qeff, lin, circ));
+        if (!generic && have_exo) ksm->add_exogenous_model(std::unique_ptr<ExogenousModel>(new VarExo(c.mat(sfx("exo_c", t)), lin, circ)));
+        KFPrediction kf(std::move(ksm));
+        GaussianMixture kpred(comps, lin, circ);
+        { vf::Entry e("KFPrediction::predict"); kf.predict(in, kpred); }
+        dump("kf_", t, kpred);
+    }
+    vf::out_end();
+}
+
+// ---------------------------------------------------------------------------------------------------------------
+struct CorrSubject {
+    std::unique_ptr<UKFCorrection> ukf;
+    ServedLTI* served = nullptr; NoiseInputMeasModel* noisy = nullptr;
+};
+
+static CorrSubject make_corr(const vf::Case& c, long t, bool generic, long lin, long circ, long q, const MatrixXd& params, bool online, bool hooks) {
+    CorrSubject s;
+    vf::Entry e("UKFCorrection::UKFCorrection");
+    if (generic) {
+        s.noisy = new NoiseInputMeasModel(c.mat(sfx("A", t)), c.mat(sfx("R", t)), c.mat(sfx("y", t)), lin, circ, q);
+        s.noisy->intrudes_ = hooks;
+        s.ukf.reset(new UKFCorrection(std::unique_ptr<MeasurementModel>(s.noisy), params(0, 0), params(0, 1), params(0, 2), online));
+    } else {
+        s.served = new ServedLTI(c.mat(sfx("H", t)), c.mat(sfx("R", t)), c.mat(sfx("y", t)), lin, circ);
+        s.served->intrudes_ = hooks;
+        s.ukf.reset(new UKFCorrection(std::unique_ptr<AdditiveMeasurementModel>(s.served), params(0, 0), params(0, 1), params(0, 2)));
+    }
+    return s;
+}
+
+static void run_correct(const vf::Case& c) {
+    const MatrixXd& params = c.mat("params");
+    const long circ = c.has_int("circ") ? c.integer("circ") : 0;
+    const bool generic = c.integer("generic") != 0;
+    const bool online = c.has_int("online") && c.integer("online") != 0;
+    const long nsteps = c.integer("nsteps");
+    const bool intrude = c.has_int("intrude") && c.integer("intrude") != 0;
+    const std::vector<std::string>& hows = c.word("hows");
+    CorrSubject s = make_corr(c, 0, generic, c.integer("n") - circ, circ, c.integer("q"), params, online, intrude);
+    CorrSubject twin;
+    if (intrude) twin = make_corr(c, 0, generic, c.integer("n") - circ, circ, c.integer("q"), params, online, false);
+    const std::string lifetime = c.m("lifetime", "fresh");
+    long relocations = 0;
+    if (lifetime == "moved_after_use") {
+        const MatrixXd& m0 = c.mat("means_s0");
+        GaussianMixture a(m0.cols(), c.integer("n") - circ, circ), b(m0.cols(), c.integer("n") - circ, circ);
+        a.mean() = m0; a.covariance() = c.mat("covs_s0"); a.weight() = c.mat("weights_s0");
+        vf::Entry e("UKFCorrection::correct (before the move)");
+        s.ukf->freeze_measurements(); s.ukf->correct(a, b); s.ukf->getLikelihood();
+    }
+    if (lifetime == "moved" || lifetime == "moved_after_use") {
+        vf::Entry e("UKFCorrection::UKFCorrection(UKFCorrection&&)");
+        std::unique_ptr<UKFCorrection> k2(new UKFCorrection(std::move(*s.ukf)));
+        s.ukf = std::move(k2); relocations++;
+    }
+    vf::out_begin(c.id);
+    vf::out_int("relocations", relocations);
+    for (long t = 0; t < nsteps; t++) {
+        const std::string h = t < (long)hows.size() ? hows[t] : "first";
+        const long n = c.has_int(sfx("n", t)) ? c.integer(sfx("n", t)) : c.integer("n");
+        const long q = c.has_int(sfx("q", t)) ? c.integer(sfx("q", t)) : c.integer("q");
+        const long lin = n - circ;
+        const MatrixXd& H = c.mat(sfx("H", t)); const MatrixXd& R = c.mat(sfx("R", t)); const MatrixXd& A = c.mat(sfx("A", t)); const MatrixXd& y = c.mat(sfx("y", t));
+        const bool have_y = c.integer(sfx("have_y", t)) != 0, fail = c.integer(sfx("fail", t)) != 0;
+        const bool innov_fail = c.has_int(sfx("fail_innov", t)) && c.integer(sfx("fail_innov", t)) != 0;
+        const long mnoise = c.has_int(sfx("mnoise", t)) ? c.integer(sfx("mnoise", t)) : 0;
+        if (h == "movector" || h == "movector+set") {
+            vf::Entry e("UKFCorrection::UKFCorrection(UKFCorrection&&)");
+            std::unique_ptr<UKFCorrection> k2(new UKFCorrection(std::move(*s.ukf)));
+            s.ukf = std::move(k2);
+        }
+        if (h != "same" && h != "movector") {
+            if (s.noisy) { s.noisy->A_ = A; s.noisy->Rv_ = R; s.noisy->lin_ = lin; s.noisy->q_ = q; }
+            else s.served->set(H, R);
+        }
+        // the measurement of this call, its availability and the description's noise components are data, not model
+        if (s.noisy) { s.noisy->y_ = y; s.noisy->have_y_ = have_y; s.noisy->fail_ = fail; s.noisy->innov_fail_ = innov_fail; s.noisy->mnoise_ = mnoise; }
+        else { s.served->y_ = y; s.served->have_y_ = have_y; s.served->fail_ = fail; s.served->innov_fail_ = innov_fail; s.served->mnoise_ = mnoise; }
+        const MatrixXd& means = c.mat(sfx("means", t)); const MatrixXd& covs = c.mat(sfx("covs", t));
+        const long comps = means.cols();
+        GaussianMixture in(comps, lin, circ);
+        in.mean() = means; in.covariance() = covs; in.weight() = c.mat(sfx("weights", t));
+        GaussianMixture in_copy(in);
+        if (intrude) {
+            const MatrixXd A2 = other(generic ? A : H), R2 = 3.0 * R, y2 = (0.5 * y.array() - 1.0).matrix(), m2 = (0.5 * means.array() + 1.0).matrix(), P2 = 2.0 * covs;
+            CorrSubject* tw = &twin;
+            vf::set_intruder([=]() {
+                if (tw->noisy) { tw->noisy->A_ = A2; tw->noisy->Rv_ = R2; tw->noisy->y_ = y2; tw->noisy->lin_ = lin; tw->noisy->q_ = q; }
+                else { tw->served->set(A2, R2); tw->served->y_ = y2; }
+                GaussianMixture p2(comps, lin, circ), c2(comps, lin, circ);
+                p2.mean() = m2; p2.covariance() = P2;
+                tw->ukf->freeze_measurements(); tw->ukf->correct(p2, c2); tw->ukf->getLikelihood();
+            });
+        }
+        s.ukf->skip(c.integer(sfx("skip", t)) != 0);
+        // alias: correct(g, g), the output object is the input object
+        const bool alias = c.has_int(sfx("alias", t)) && c.integer(sfx("alias", t)) != 0;
+        GaussianMixture corr_obj(c.mat(sfx("old_means", t)).cols(), lin, circ);
+        corr_obj.mean() = c.mat(sfx("old_means", t)); corr_obj.covariance() = c.mat(sfx("old_covs", t)); corr_obj.weight() = c.mat(sfx("old_weights", t));
+        GaussianMixture& corr = alias ? in : corr_obj;
+        {
+            vf::Entry e("UKFCorrection::correct");
+            s.ukf->freeze_measurements();
+            s.ukf->correct(in, corr);
+        }
+        bool ok; VectorXd lik;
+        { vf::Entry e("UKFCorrection::getLikelihood"); std::tie(ok, lik) = s.ukf->getLikelihood(); }
+        // a second query must return the same values (no hidden state consumed by the query)
+        bool ok2; VectorXd lik2;
+        { vf::Entry e("UKFCorrection::getLikelihood"); std::tie(ok2, lik2) = s.ukf->getLikelihood(); }
+        if (intrude) vf::out_int(sfx("intruder_calls", t), vf::intruder_state().calls);
+        vf::clear_intruder();
+        vf::out_int(sfx("components", t), corr.components);
+        vf::out_int(sfx("dim", t), corr.dim);
+        dump("", t, corr);
+        vf::out_mat(sfx("weights", t), corr.weight().transpose());
+        vf::out_int(sfx("lik_valid", t), ok ? 1 : 0);
+        if (ok) vf::out_mat(sfx("lik", t), lik.transpose());
+        vf::out_int(sfx("lik_requery_same", t), (ok == ok2 && vf::bit_equal(lik, lik2)) ? 1 : 0);
+        vf::out_int(sfx("input_unchanged", t), (alias || same(in, in_copy)) ? 1 : 0);
+        // the implementation's own Kalman correction on the same inputs (a fresh object per call)
+        MatrixXd Reff = R;
+        if (generic) { const MatrixXd& D = c.mat(sfx("D", t)); Reff = D * R * D.transpose(); }
+        KFCorrection kf(std::unique_ptr<LinearMeasurementModel>(new ServedLTI(H, Reff, y, lin, circ)));
+        GaussianMixture kcorr(comps, lin, circ);
+        { vf::Entry e("KFCorrection::correct"); kf.freeze_measurements(); kf.correct(in_copy, kcorr); }
+        bool kok; VectorXd klik;
+        { vf::Entry e("KFCorrection::getLikelihood"); std::tie(kok, klik) = kf.getLikelihood(); }
+        dump("kf_", t, kcorr);
+        for (long i = 0; i < comps; i++) vf::out_num(sfx("kf_lik" + std::to_string(i), t), kok && i < klik.size() ? klik(i) : NAN);
+    }
+    vf::out_end();
 }
 
 int main() {
     vf::Case c;
     while (vf::read_case(std::cin, c)) {
-        const MatrixXd& params = c.mat("params");
-        const double alpha = params(0, 0), beta = params(0, 1), kappa = params(0, 2);
-        const long n = c.integer("n"), q = c.integer("q"); const bool generic = c.integer("generic") != 0;
-        const MatrixXd& means = c.mat("means"); const MatrixXd& covs = c.mat("covs");
-        const long comps = means.cols();
-        GaussianMixture in(comps, n);
-        in.mean() = means; in.covariance() = covs; in.weight() = c.mat("weights");
-        GaussianMixture in_copy(in);
-        vf::out_begin(c.id);
-        if (c.kind == "predict") {
-            const MatrixXd& F = c.mat("F"); const MatrixXd& Q = c.mat("Q"); const MatrixXd& A = c.mat("A");
-            std::unique_ptr<UKFPrediction> ukf;
-            MatrixXd Qeff = Q;
-            {
-                vf::Entry e("UKFPrediction::UKFPrediction");
-                if (generic) {
-                    const MatrixXd& B = c.mat("B");
-                    Qeff = B * Q * B.transpose();
-                    ukf.reset(new UKFPrediction(std::unique_ptr<StateModel>(new NoiseInputStateModel(A, Q, n, q)), alpha, beta, kappa));
-                } else {
-                    std::unique_ptr<AdditiveStateModel> sm(new LTI(F, Q));
-                    if (c.has_mat("exo_c")) sm->add_exogenous_model(std::unique_ptr<ExogenousModel>(new ConstExo(c.mat("exo_c"))));
-                    ukf.reset(new UKFPrediction(std::move(sm), alpha, beta, kappa));
-                }
-            }
-            if (c.integer("skip_pred")) ukf->skip("prediction", true);
-            else if (c.integer("skip_state")) ukf->skip("state", true);
-            // the output object may have another shape: the unscented prediction assigns the whole mixture
-            const long dshape = c.has_int("out_shape") ? c.integer("out_shape") : 0;
-            GaussianMixture pred(comps + dshape, n + dshape);
-            pred.mean().setConstant(7.25); pred.covariance().setConstant(-3.5); pred.weight().setConstant(0.125);
-            { vf::Entry e("UKFPrediction::predict"); ukf->predict(in, pred); }
-            vf::out_int("components", pred.components);
-            vf::out_int("dim", pred.dim);
-            dump("", pred);
-            vf::out_mat("weights", pred.weight().transpose());
-            // the implementation's own Kalman prediction on the same inputs
-            std::unique_ptr<LinearStateModel> ksm(new LTI(F, Qeff));
-            if (!generic && c.has_mat("exo_c")) ksm->add_exogenous_model(std::unique_ptr<ExogenousModel>(new ConstExo(c.mat("exo_c"))));
-            KFPrediction kf(std::move(ksm));
-            GaussianMixture kpred(comps, n);
-            { vf::Entry e("KFPrediction::predict"); kf.predict(in, kpred); }
-            dump("kf_", kpred);
-        } else {
-            const long m = c.integer("m");
-            const MatrixXd& H = c.mat("H"); const MatrixXd& R = c.mat("R"); const MatrixXd& A = c.mat("A"); const MatrixXd& y = c.mat("y");
-            const bool have_y = c.integer("have_y") != 0, fail = c.integer("fail") != 0;
-            const long mnoise = c.has_int("mnoise") ? c.integer("mnoise") : 0;   // noise components of the measurement description
-            std::unique_ptr<UKFCorrection> ukf;
-            ServedLTI* served = nullptr; NoiseInputMeasModel* noisy = nullptr;
-            MatrixXd Reff = R;
-            {
-                vf::Entry e("UKFCorrection::UKFCorrection");
-                if (generic) {
-                    const MatrixXd& D = c.mat("D");
-                    Reff = D * R * D.transpose();
-                    noisy = new NoiseInputMeasModel(A, R, y, have_y, fail, n, q);
-                    noisy->mnoise_ = mnoise;
-                    ukf.reset(new UKFCorrection(std::unique_ptr<MeasurementModel>(noisy), alpha, beta, kappa, c.integer("online") != 0));
-                } else {
-                    served = new ServedLTI(H, R, y, have_y, fail);
-                    served->mnoise_ = mnoise;
-                    ukf.reset(new UKFCorrection(std::unique_ptr<AdditiveMeasurementModel>(served), alpha, beta, kappa));
-                }
-            }
-            GaussianMixture corr(c.mat("old_means").cols(), n);
-            if (c.has_int("warm") && c.integer("warm")) {
-                // an earlier, successful correction by the same object (measurement y0), into a scratch output
-                vf::Entry e("UKFCorrection::correct(warm-up)");
-                GaussianMixture scratch(c.mat("old_means").cols(), n);
-                if (served) { served->y_ = c.mat("y0"); served->have_y_ = true; served->fail_ = false; }
-                if (noisy) { noisy->y_ = c.mat("y0"); noisy->have_y_ = true; noisy->fail_ = false; }
-                ukf->freeze_measurements();
-                ukf->correct(in, scratch);
-                if (served) { served->y_ = y; served->have_y_ = have_y; served->fail_ = fail; }
-                if (noisy) { noisy->y_ = y; noisy->have_y_ = have_y; noisy->fail_ = fail; }
-            }
-            if (c.integer("skip")) ukf->skip(true);
-            corr.mean() = c.mat("old_means"); corr.covariance() = c.mat("old_covs"); corr.weight() = c.mat("old_weights");
-            {
-                vf::Entry e("UKFCorrection::correct");
-                ukf->freeze_measurements();
-                ukf->correct(in, corr);
-            }
-            bool ok; VectorXd lik;
-            { vf::Entry e("UKFCorrection::getLikelihood"); std::tie(ok, lik) = ukf->getLikelihood(); }
-            vf::out_int("components", corr.components);
-            dump("", corr);
-            vf::out_mat("weights", corr.weight().transpose());
-            vf::out_int("lik_valid", ok ? 1 : 0);
-            if (ok) vf::out_mat("lik", lik.transpose());
-            // the implementation's own Kalman correction on the same inputs
-            KFCorrection kf(std::unique_ptr<LinearMeasurementModel>(new ServedLTI(H, Reff, y, true, false)));
-            GaussianMixture kcorr(comps, n);
-            { vf::Entry e("KFCorrection::correct"); kf.freeze_measurements(); kf.correct(in, kcorr); }
-            bool kok; VectorXd klik;
-            { vf::Entry e("KFCorrection::getLikelihood"); std::tie(kok, klik) = kf.getLikelihood(); }
-            dump("kf_", kcorr);
-            for (long i = 0; i < comps; i++) vf::out_num("kf_lik" + std::to_string(i), kok && i < klik.size() ? klik(i) : NAN);
-        }
-        vf::out_int("input_unchanged", same(in, in_copy) ? 1 : 0);
-        vf::out_end();
+        if (c.kind == "predict") run_predict(c); else run_correct(c);
     }
     return 0;
 }
